@@ -190,7 +190,7 @@ Theorem main_success_means_all_ran exists_ lib_items outcome_ok : forall pairs,
   fst (main_m true exists_ lib_items outcome_ok pairs) = false ->
   Forall2 (fun pr ex => fst pr = fst ex /\ exists_ (fst pr) = true /\
                         Permutation (snd ex) (selected (snd pr) (lib_items (fst pr))) /\ snd ex <> [] /\
-                        outcome_ok (snd ex) = true)
+                        outcome_ok (fst pr) (snd ex) = true)
           pairs (snd (main_m true exists_ lib_items outcome_ok pairs)).
 Proof.
   induction pairs as [|[lib pat] r IH]; intros H; cbn [main_m] in *; [constructor|].
